@@ -18,7 +18,7 @@ from .. import refmodel, spec as specmod
 from ..bitdom import Int, V, Value, Tup, UF, NONE, Outcome
 from ..machine import Machine, describe_witness
 from ..report import Run, AnalysisError
-from ..srcmodel import Repo
+from ..srcmodel import Repo, norm_stmt
 from .c14 import PMSA_FSR
 
 P = refmodel.P
@@ -665,6 +665,46 @@ def check_ld_base_select(run, repo):
     run.instance('C15-B', 'long-descriptor TTBR0/TTBR1 base selection', obligations=3, ok=ok, sample={'function': fn})
 
 
+def check_ld_hierarchical(run, repo):
+    """C15-H  hierarchical table attributes of the long-descriptor walk: APTable / XNTable / PXNTable (descriptor bits 62:59) of a
+    table descriptor restrict every lower level, so the variable a value from those bits is stored into must combine it with its
+    own previous value (x = x and/or ..., x |= ...): an assignment that overwrites forgets the restrictions of the upper levels."""
+    fi = repo.method('ArmV6', 'translation_table_walk_ld')
+    fn = fi.qualname
+    n = 0
+    ok = True
+
+    def touches_table_bits(expr):
+        for c in ast.walk(expr):
+            if isinstance(c, ast.Call) and isinstance(c.func, ast.Name) and c.args and isinstance(c.args[0], ast.Name) \
+                    and c.args[0].id == 'descriptor':
+                idx = [a.value for a in c.args[1:] if isinstance(a, ast.Constant) and isinstance(a.value, int)]
+                if c.func.id == 'bit_at' and len(idx) == 1 and 59 <= idx[0] <= 62:
+                    return True
+                if c.func.id == 'substring' and len(idx) == 2 and idx[0] >= 59 and idx[1] <= 62 and idx[0] >= idx[1]:
+                    return True
+        return False
+    for loop in ast.walk(fi.node):
+        if not isinstance(loop, ast.While):
+            continue
+        for st in ast.walk(loop):
+            if isinstance(st, ast.Assign) and len(st.targets) == 1 and isinstance(st.targets[0], ast.Name) and touches_table_bits(st.value):
+                n += 1
+                name = st.targets[0].id
+                if not any(isinstance(x, ast.Name) and x.id == name for x in ast.walk(st.value)):
+                    ok = False
+                    run.violation('C15-H', fi.relpath, fn, norm_stmt(st, 90),
+                                  '`%s` takes the hierarchical APTable/XNTable/PXNTable bits of this table descriptor without combining them '
+                                  'with its previous value: restrictions set by an upper-level table are dropped at the next level' % name)
+            elif isinstance(st, ast.AugAssign) and isinstance(st.target, ast.Name) and touches_table_bits(st.value):
+                n += 1
+                if not isinstance(st.op, (ast.BitOr, ast.BitAnd)):
+                    ok = False
+                    run.violation('C15-H', fi.relpath, fn, norm_stmt(st, 90), 'hierarchical table bits must accumulate with | or &')
+    run.instance('C15-H', 'hierarchical table attributes accumulate', obligations=max(n, 1), ok=ok, sample={'function': fn, 'updates': n})
+    run.floor('hierarchical attribute updates in the LD walk', n, 1)
+
+
 def main(repo_path, tier, seed, replay=None):
     run = Run('C15', tier, level='other', seed=seed)
     repo = Repo(repo_path)
@@ -677,6 +717,7 @@ def main(repo_path, tier, seed, replay=None):
     check_compose(run, repo)
     check_ld_loop(run, repo)
     check_ld_base_select(run, repo)
+    check_ld_hierarchical(run, repo)
     # positive control: one descriptor slice moved by a bit (in memory)
     fi = repo.method('ArmV6', 'translation_table_walk_sd')
     src = fi.module.source
